@@ -296,7 +296,7 @@ def setup_worker():
     orig_cmp = sm._compute_event_comparison_score
 
     def cmp_wrapper(state, event, ref_event, priority=None):
-        if getattr(event, "name", None) == "E" and not _C["active"]:
+        if getattr(event, "name", None) in ("E", "PairActionFinished", "PairActionUpdated") and not _C["active"]:
             _C["active"] = True
             try:
                 return orig_cmp(state, event, ref_event, priority)
@@ -327,7 +327,9 @@ def run_pair(case):
         extras["extra"] = 5
     if rng.random() < 0.1:
         extras["zz"] = [1, {"a": 2}]
-    src = "flow main\n  match E(p=%s)\n  send Done()\n  match Never()\n" % render(p)
+    # a third of the pairs use an action event (received through ActionEvent.from_umim_event, with an action_uid)
+    evname = rng.choice(["E", "E", "E", "E", "PairActionFinished", "PairActionUpdated"])
+    src = "flow main\n  match %s(p=%s)\n  send Done()\n  match Never()\n" % (evname, render(p))
     L["random"].reset(seed=case["seed"])
     _C["evals"] = 0
     _C["viol"] = []
@@ -335,7 +337,9 @@ def run_pair(case):
         st = v2h.mk(src)
     except v2h.LoaderReject as e:
         return {"verdict": "inconclusive", "reason": "loader-reject", "detail": str(e)[:200] + " :: " + render(p)}
-    ev = {"type": "E", "p": v}
+    ev = {"type": evname, "p": v}
+    if evname != "E":
+        ev["action_uid"] = "uid-%d" % rng.randint(1, 9)
     ev.update(extras)
     exp = matches(p, v)
     base = {
@@ -358,6 +362,7 @@ def run_pair(case):
         "spec_nomatch": int(not exp),
         "kind_" + type(p).__name__: 1,
         "with_extra_params": int(bool(extras)),
+        "on_action_event": int(evname != "E"),
         "max_pattern_depth": depth(p),
     }
     base["sample"]["marker"] = got
@@ -374,7 +379,14 @@ def run_pair(case):
     return dict(base, verdict="held", observed=obs)
 
 
-INSTANCE_SCENARIOS = ("action", "flow", "action_started", "flow_named_param")
+INSTANCE_SCENARIOS = ("action", "flow", "action_started", "flow_named_param", "uid_param", "uid_member", "uid_event_ref", "uid_var")
+# the instance is named by a written `action_uid=` parameter instead of a `$ref.Finished()` reference
+UID_FORMS = {
+    "uid_param": ("start WorkAction(n=%d) as $a%d", "match WorkActionFinished(action_uid=$a%d.uid)"),
+    "uid_member": ("start WorkAction(n=%d) as $a%d", "match WorkAction.Finished(action_uid=$a%d.uid)"),
+    "uid_event_ref": ("send StartWorkAction(n=%d) as $a%d", "match WorkActionFinished(action_uid=$a%d.action_uid)"),
+    "uid_var": ("start WorkAction(n=%d) as $a%d", "$u = $a%d.uid\n  match WorkActionFinished(action_uid=$u, is_success=True)"),
+}
 
 
 def run_instance(case):
@@ -387,7 +399,10 @@ def run_instance(case):
     which = rng.randint(0, 1)  # which reference is awaited
     order = rng.choice(["other-first", "own-first", "other-twice"])
     L["random"].reset(seed=case["seed"])
-    if scen in ("action", "action_started"):
+    if scen in UID_FORMS:
+        st_form, m_form = UID_FORMS[scen]
+        src = "flow main\n  %s\n  %s\n  %s\n  send Done()\n  match Never()\n" % (st_form % (1, 0), st_form % (2, 1), m_form % which)
+    elif scen in ("action", "action_started"):
         member = "Finished" if scen == "action" else "Started"
         src = (
             "flow main\n  start WorkAction(n=1) as $a0\n  start WorkAction(n=2) as $a1\n"
@@ -410,18 +425,18 @@ def run_instance(case):
         return {"verdict": "inconclusive", "reason": "loader-reject", "detail": str(e)[:300]}
     trace = []
     obs = {"instance_scenarios": 1, "contract_evaluations": 0}
-    if scen in ("action", "action_started"):
+    if scen in ("action", "action_started") or scen in UID_FORMS:
         starts = [e for e in st.outgoing_events if e["type"] == "StartWorkAction"]
         if len(starts) != 2:
             return {"verdict": "inconclusive", "reason": "scenario-setup", "detail": repr(st.outgoing_events)[:300]}
         uids = [starts[0]["action_uid"], starts[1]["action_uid"]]
-        evname = "WorkActionFinished" if scen == "action" else "WorkActionStarted"
+        evname = "WorkActionStarted" if scen == "action_started" else "WorkActionFinished"
         seq = {"other-first": [1 - which, which], "own-first": [which], "other-twice": [1 - which, 1 - which, which]}[order]
         expected_at = len(seq) - 1
         fired = None
         for i, k in enumerate(seq):
             ev = {"type": evname, "action_uid": uids[k]}
-            if scen == "action":
+            if scen != "action_started":
                 ev.update({"is_success": True, "return_value": None})
             out = v2h.run(st, ev)
             trace.append((evname, "a%d" % k, v2h.types(out)))
